@@ -75,7 +75,7 @@ func negativeTwin(ev string) string {
 func checkC10(c *Ctx) {
 	c.Rule = "two key-generation rounds with the same participants run concurrently on one board (one message per poll, snapshot after every step), each followed by a signing batch. For every (genuine message g by participant P, consuming node) pair, in the exact state in which the node awaits it: (a) every other participant S posts the same payload - and the phase's failure event naming P - under its own name and signature: nothing recorded for P and not the round state may change; (b) the counterpart message of the other round (same sender, same event) is re-posted under this round's id, and g itself is re-posted under every other event name: must be rejected without any change. distinct = distinct (family, event, state) cases"
 	c.Assumptions = []string{"MemState substituted for LevelDB", "re-posted messages keep their genuine signature (it covers the payload bytes)"}
-	cfgs := []ntCase{{3, 2}}
+	cfgs := []ntCase{{3, 2}, {2, 2}}
 	if c.Thorough() {
 		cfgs = append(cfgs, ntCase{2, 2}, ntCase{3, 3}, ntCase{4, 3})
 	}
